@@ -122,9 +122,9 @@ if __name__ == "__main__":
         run(sys.argv[2], sys.argv[3:])
 
 
-def imp(pid, x):
-    src = "/tmp/wt/%s/out/%s" % (pid, x)
-    d = os.path.join(VERIF, "seeded", "%s-%s" % (pid, x))
+def imp(pid, x, root="/tmp/wt", name=None):
+    src = "%s/%s/out/%s" % (root, pid, x)
+    d = os.path.join(VERIF, "seeded", "%s-%s" % (pid, name or x))
     os.makedirs(d, exist_ok=True)
     for f in ("patch.diff", "demo.rs", "notes.md"):
         if os.path.exists(os.path.join(src, f)):
@@ -140,4 +140,9 @@ def imp(pid, x):
 
 if __name__ == "__main__" and sys.argv[1] == "import":
     d = imp(sys.argv[2], sys.argv[3])
+    confirm(d)
+
+if __name__ == "__main__" and sys.argv[1] == "import2":
+    # second round: /tmp/wt2/<pid>/out/A|B  ->  seeded/<pid>-C|D
+    d = imp(sys.argv[2], sys.argv[3], root="/tmp/wt2", name={"A": "C", "B": "D"}[sys.argv[3]])
     confirm(d)
